@@ -9,7 +9,7 @@ import GT.Lemmas.Rep
 
 set_option linter.unusedSectionVars false
 
-namespace GT
+namespace GT.RepW
 
 /-! ## generic `Except` / `mapM` helpers -/
 
@@ -642,4 +642,4 @@ theorem automatonAccepted_sound (ρ : Rep n R) (a : Aut V) (L : Nat) (maxlen wit
   (automatonAccepted_agrees ρ a L maxlen withWords startState endState memo edgeWords hm).sound h
 
 end Rep
-end GT
+end GT.RepW
